@@ -415,3 +415,83 @@ Proof.
   split; intros L; rewrite L; split; reflexivity.
 Qed.
 
+(* ---------- the author of an issue is fixed; release builds never panic ---------- *)
+
+Lemma issue_author_fixed dbg atomic (root : iop) (ops : list iop) i0 i :
+  i_init dbg root = Ok i0 ->
+  Forall (fun o' => op_id o' <> op_id root) ops ->
+  i_run dbg atomic i0 ops = Some i ->
+  exists c, i_root i = Some (op_id root, c) /\ c_author c = op_actor root.
+Proof.
+  intros Hinit Hids Hrun. apply rooted_root.
+  pose proof (i_init_rooted _ _ _ Hinit) as Hr. clear Hinit.
+  revert i0 Hr Hrun. induction ops as [|o ops IH]; intros i0 Hr Hrun; cbn [i_run] in Hrun.
+  - inversion Hrun; subst. exact Hr.
+  - inversion Hids as [|? ? Hid Hids']; subst.
+    destruct (i_step dbg atomic i0 o) as [i1|] eqn:S; [|discriminate].
+    apply (IH Hids' i1); [|exact Hrun].
+    unfold i_step in S. destruct (i_apply dbg atomic i0 o) as [x|e x|k] eqn:E; inversion S; subst x.
+    + eapply i_apply_guard; [exact Hid|exact Hr|left; exact E].
+    + eapply i_apply_guard; [exact Hid|exact Hr|right; eexists; exact E].
+Qed.
+
+Definition no_panic {S} (r : outcome S) : Prop := match r with Panic _ => False | _ => True end.
+
+Lemma omap_no_panic {S T} (f : S -> T) r : no_panic r -> no_panic (omap f r).
+Proof. destruct r; auto. Qed.
+
+Lemma i_op_action_no_panic rid a0 i act entry a d :
+  rooted rid a0 i -> no_panic (i_op_action false i act entry a d).
+Proof.
+  intros Hr. destruct (rooted_root _ _ _ Hr) as (rc & Hrt & _).
+  assert (HA : no_panic (i_action false i act entry a)).
+  { destruct act; cbn [i_action]; try exact I.
+    - destruct has_newline; exact I.
+    - apply omap_no_panic. unfold t_comment, dup_id. cbn [andb].
+      destruct (body =? 0); [exact I|].
+      destruct (match reply with Some r => negb (mem r (t_comments (i_thread i))) | None => false end); exact I.
+    - apply omap_no_panic. unfold t_edit, dup_id. cbn [andb].
+      destruct (body =? 0); [exact I|]. destruct (lookup id (t_comments (i_thread i))) as [[c|]|]; exact I.
+    - rewrite Hrt. destruct (id =? rid); [exact I|]. apply omap_no_panic. unfold t_redact, dup_id. cbn [andb].
+      destruct (lookup id (t_comments (i_thread i))); exact I.
+    - apply omap_no_panic. unfold t_react, dup_id. cbn [andb].
+      destruct (lookup id (t_comments (i_thread i))) as [[c|]|]; exact I. }
+  unfold i_op_action, i_authz. destruct (is_delegate d a); [exact HA|]. rewrite Hrt.
+  destruct act; try exact HA.
+  - destruct (sset_eqb (sset_of_list assignees) (i_assignees i)); [exact HA|exact I].
+  - destruct (a =? c_author rc); [exact HA|exact I].
+  - destruct (a =? c_author rc); [exact HA|exact I].
+  - destruct (sset_eqb (sset_of_list labels) (i_labels i)); [exact HA|exact I].
+  - destruct (lookup id (t_comments (i_thread i))) as [[c|]|]; try exact I.
+    destruct (a =? c_author c); [exact HA|exact I].
+  - destruct (lookup id (t_comments (i_thread i))) as [[c|]|]; try exact I.
+    destruct (a =? c_author c); [exact HA|exact I].
+Qed.
+
+Lemma i_actions_no_panic rid a0 acts : forall i entry a d,
+  entry <> rid \/ a = a0 ->
+  rooted rid a0 i -> no_panic (i_actions false i acts entry a d).
+Proof.
+  induction acts as [|act acts IH]; intros i entry a d Hid Hr; cbn [i_actions]; [exact I|].
+  pose proof (i_op_action_no_panic rid a0 i act entry a d Hr) as NP.
+  destruct (i_op_action false i act entry a d) as [i1|e i1|k] eqn:E; [|exact I|exact NP].
+  apply IH; [exact Hid|].
+  eapply (i_op_action_guard (is_delegate d a) a entry a0 false rid d i act i1); [reflexivity|exact Hid|exact Hr|left; exact E].
+Qed.
+
+Lemma issue_release_never_panics atomic (root : iop) (ops : list iop) i0 :
+  i_init false root = Ok i0 ->
+  Forall (fun o' => op_id o' <> op_id root) ops ->
+  i_run false atomic i0 ops <> None.
+Proof.
+  intros Hinit Hids. pose proof (i_init_rooted _ _ _ Hinit) as Hr. clear Hinit.
+  revert i0 Hr. induction ops as [|o ops IH]; intros i0 Hr; cbn [i_run]; [discriminate|].
+  inversion Hids as [|? ? Hid Hids']; subst.
+  assert (NP : no_panic (i_apply false atomic i0 o)).
+  { unfold i_apply, i_apply_raw. destruct (op_doc o) as [d|]; [|exact I].
+    pose proof (i_actions_no_panic (op_id root) (op_actor root) (op_actions o) i0 (op_id o) (op_actor o) d (or_introl Hid) Hr) as NP.
+    destruct (i_actions false i0 (op_actions o) (op_id o) (op_actor o) d); auto. }
+  unfold i_step. destruct (i_apply false atomic i0 o) as [x|e x|k] eqn:E; [| |contradiction].
+  - apply IH; [exact Hids'|]. eapply i_apply_guard; [exact Hid|exact Hr|left; exact E].
+  - apply IH; [exact Hids'|]. eapply i_apply_guard; [exact Hid|exact Hr|right; eexists; exact E].
+Qed.
